@@ -1,6 +1,7 @@
 package dsim
 
 import (
+	"context"
 	"fmt"
 	"io"
 	"net"
@@ -69,6 +70,8 @@ type smaWorld struct {
 	cfgAddrs    []string
 	keptReports []*retained
 	auditDone   int
+	appCtx      bool // the audit wrapper sets a cancellable context on each connection before the state machine sees it
+	ctxSet      map[diam.Conn]bool
 	audited     []*retained // every message, as the wrapper around the state machine saw it arrive
 	hsc         <-chan diam.Conn
 	stallRun    bool // one CEA write of this run may stall while the other connection goes on
@@ -204,6 +207,7 @@ func newSmaWorld(e *Env, prop string) *smaWorld {
 	}
 	// the application wraps the state machine in a handler of its own that keeps every message
 	// (audit log); what the state machine then does with a message must not change it
+	w.appCtx = t.Chance(1, 3)
 	srv := &diam.Server{Handler: smaAudit{w}}
 	if t.Chance(1, 3) {
 		srv.WriteTimeout = time.Second // (no fake time passes in this world: it never expires)
@@ -239,7 +243,21 @@ func (a smaAudit) ServeDIAM(c diam.Conn, m *diam.Message) {
 	w.mu.Lock()
 	r.index = len(w.audited)
 	w.audited = append(w.audited, r)
+	first := !w.ctxSet[c]
+	if first && w.appCtx {
+		if w.ctxSet == nil {
+			w.ctxSet = map[diam.Conn]bool{}
+		}
+		w.ctxSet[c] = true
+	}
 	w.mu.Unlock()
+	if first && w.appCtx {
+		// the application hangs a context of its own on every new connection (derived from the
+		// connection's); the state machine adds its peer metadata on top of whatever is there
+		ctx, cancel := context.WithCancel(c.Context())
+		_ = cancel
+		c.SetContext(ctx)
+	}
 	w.mach.ServeDIAM(c, m)
 }
 func (a smaAudit) Error(er *diam.ErrorReport)             { a.w.mach.Error(er) }
